@@ -22,7 +22,7 @@ def registry():
 
     reg = {}
     reg.update(mon_code.MONITORS)
-    for modname in ("mon_norm", "mon_data", "mon_misc", "mon_json", "mon_hist", "mon_line", "mon_cli"):
+    for modname in ("mon_norm", "mon_value", "mon_data", "mon_misc", "mon_json", "mon_hist", "mon_line", "mon_cli"):
         try:
             mod = __import__(modname)
         except ImportError as e:
